@@ -90,7 +90,7 @@ def jobs(tier, seed=0):
     cap = 50000 if quick else 400000
     LIM = 2
 
-    t_end = time.time() + (150 if quick else 1200)      # no single exploration may run away (recorded as not exhaustive)
+    t_end = time.time() + (150 if quick else 420)      # no single exploration may run away (recorded as not exhaustive)
 
     def A(name, mk, alpha, limit=LIM, **kw):
         J.append(Job("A", _checked(lambda: mk(name=name, alphabet=alpha(), limit=limit, **kw), seed),
@@ -150,7 +150,8 @@ def jobs(tier, seed=0):
                             A(name + " sampled", lambda n=n, decs=decs, full=full, mk=mk, **k: mk(n, decs, full=full, **k),
                               lambda n=n, m=m, d=d, full=full, addrs=addrs, lvl=lvl:
                                   random.Random(seed * 13 + n * 5 + m).sample(
-                                      small_alphabet(n, m, addrs=addrs, direction=d, full=full, level=lvl), 6000))
+                                      small_alphabet(n, m, addrs=addrs, direction=d, full=full, level=lvl),
+                                      6000 if mk is make_shared else 1200))
                         else:
                             A(name, lambda n=n, decs=decs, full=full, mk=mk, **k: mk(n, decs, full=full, **k),
                               lambda n=n, m=m, d=d, full=full, addrs=addrs, lvl=lvl:
@@ -491,8 +492,10 @@ def search(ctx, disagreements, proof_info):
             inst = all_jobs[d.job].make()
         except Exception:
             continue
-        if not inst.domain:
-            continue
+        # exhaustive-exploration and walk traces are not AXI-legal: only the environment-independent part of the
+        # property (same-cycle, payload-equal pairing of the handshakes) may be judged on them
+        if all_jobs[d.job].mode == "A" or inst.env_factory is WalkEnv:
+            inst.domain = False
         r = replay_with_monitor(inst, d.trace)
         if r:
             return {"instance": inst.name, "make": _spec_of(inst), "trace": [list(l) for l in d.trace[:r[0] + 1]],
